@@ -23,6 +23,8 @@ Emitted (consumed by `PytaskModel/Clean.lean`):
                                                      -- (entry name, test): ("pyproject.toml", "section") = exists and has the
                                                      -- pytask section -> root and config; (".git", "exists"|"is_dir"|"is_file") -> root
   rootStartsAtParentOfFile : Bool          -- a common ancestor that is a file is replaced by its directory
+  configSection            : List String   -- the table a pyproject.toml must have to be the configuration ("section" above):
+                                           -- read_config subscripts every level (KeyError = not a pytask configuration)
 """
 from __future__ import annotations
 
@@ -377,6 +379,26 @@ def section() -> list[str]:
             stop_rules.append((entry, st.test.func.attr))
         else:
             raise ExtractError(f"find_project_root_and_config: stop rule not recognised: {ast.unparse(st)[:100]}")
+    # WHICH table makes a pyproject.toml the configuration: read_config(path) with the default `sections`, every level subscripted
+    rc = extract._func(cu, "read_config")
+    rparams = [a.arg for a in rc.args.args]
+    if rparams != ["path", "sections"] or len(rc.args.defaults) != 1 or not isinstance(rc.args.defaults[0], ast.Constant) \
+            or not isinstance(rc.args.defaults[0].value, str):
+        raise ExtractError("read_config: expected (path, sections='<dotted table>')")
+    config_section = rc.args.defaults[0].value.split(".")
+    rsrc = ast.unparse(rc)
+    split_var = None
+    for n in ast.walk(rc):
+        if isinstance(n, ast.Assign) and len(n.targets) == 1 and isinstance(n.targets[0], ast.Name) and ast.unparse(n.value) == "sections.split('.')":
+            split_var = n.targets[0].id
+    descends = [n for n in ast.walk(rc) if isinstance(n, ast.For) and split_var is not None and ast.unparse(n.iter) == split_var
+                and [ast.unparse(b) for b in n.body] == [f"config = config[{ast.unparse(n.target)}]"] and not n.orelse]
+    if split_var is None or len(descends) != 1 or ".get(" in rsrc or "except" in rsrc or "config = tomllib.loads(" not in rsrc:
+        raise ExtractError("read_config: the configuration table is no longer reached by subscripting every level of "
+                           "`sections` (a missing level must raise KeyError: the file is then not a pytask configuration)")
+    if not any(isinstance(n, ast.Call) and ast.unparse(n.func) == "read_config" and len(n.args) == 1 and not n.keywords for n in ast.walk(fr)):
+        raise ExtractError("find_project_root_and_config: read_config is not called with the default table")
+
     if "if root is None:\n        root = common_ancestor" not in fsrc or "return (root, config_path)" not in fsrc:
         raise ExtractError("find_project_root_and_config: fallback `root = common_ancestor` / return not recognised")
     start_parent = "if common_ancestor.is_file():\n        common_ancestor = common_ancestor.parent" in fsrc
@@ -407,6 +429,7 @@ def section() -> list[str]:
         f"def cleanKnowsProvisional : Bool := {lean_bool(knows_provisional)}",
         "def rootStopRules : List (String × String) := [" + ", ".join(f"({lean_str(a)}, {lean_str(b)})" for a, b in stop_rules) + "]",
         f"def rootStartsAtParentOfFile : Bool := {lean_bool(start_parent)}",
+        f"def configSection : List String := {strs(config_section)}",
         "",
     ] + gen
 
